@@ -13,6 +13,41 @@ from . import gen_graph
 from .common import (EXIT_DEADLOCK, EXIT_INVARIANT, EXIT_STEP_BUDGET, HarnessError, Plan,
                      STRATEGIES, assemble, check_sim_health, rm_rf, rng_for, scratch_dir, sim_link)
 
+SIMSYS = os.path.join(os.path.dirname(os.path.dirname(os.path.dirname(os.path.abspath(__file__)))),
+                      "target", "libsimsys.so")
+
+# Errors each interposed call can realistically return (sim/simsys/simsys.c); "short:N" = short write.
+SYS_ERRNOS = {
+    "open": ["EMFILE", "ENOSPC", "EACCES", "EIO", "ETXTBSY", "EINTR", "ENOMEM"],
+    "ftruncate": ["ENOSPC", "EIO", "EINVAL"],
+    "mmap": ["ENOMEM", "ENODEV", "EAGAIN"],
+    "rename": ["EACCES", "EBUSY", "ENOSPC", "EXDEV"],
+    "unlink": ["EACCES", "EBUSY", "EIO"],
+    "write": ["ENOSPC", "EIO", "EINTR", "short:1", "short:100", "short:4096", "EDQUOT"],
+    "fchmod": ["EPERM", "EIO"],
+    "statx": ["EIO", "ESTALE", "ENOMEM"],
+    "close": ["EIO"],
+    "fork": ["EAGAIN", "ENOMEM"],
+    "pipe": ["EMFILE"],
+}
+
+
+def read_syslog(path):
+    """Returns ({call: max count over processes}, [fired lines])."""
+    counts, fired = {}, []
+    try:
+        with open(path) as f:
+            for line in f:
+                p = line.split()
+                if len(p) >= 4 and p[0] == "count":
+                    counts[p[2]] = max(counts.get(p[2], 0), int(p[3]))
+                elif p and p[0] == "fired":
+                    fired.append(" ".join(p[2:5]))
+    except FileNotFoundError:
+        pass
+    return counts, fired
+
+
 ERR_SITES = ["after_open", "after_symbol_db", "after_resolution", "after_alternatives",
              "after_section_resolution", "after_set_size", "after_layout", "after_write"]
 PHASE_SITES = ERR_SITES + ["write_start", "write_body_done", "write_flushed", "write_unmapped",
@@ -243,8 +278,21 @@ def run_scenario(sc, seed, index, wl, keep=False):
                 import resource
                 signal.signal(signal.SIGXFSZ, signal.SIG_IGN)
                 resource.setrlimit(resource.RLIMIT_FSIZE, (limit, limit))
-        r = sim_link(link_argv(sc, inputs, extra), d, plan, tag="run", ctl_dir=ctl, preexec=preexec)
+        env_extra = None
+        syslog = os.path.join(ctl, f"sys{wl.n}.log")
+        if sc.get("sysfault") is not None:
+            # system-call fault seam (sim/simsys): "" = profile only (count calls), else the rules
+            env_extra = {"LD_PRELOAD": SIMSYS, "WILD_SIM_SYSFAULT_LOG": syslog,
+                         "WILD_SIM_SYSFAULT": sc["sysfault"] or None}
+        r = sim_link(link_argv(sc, inputs, extra), d, plan, tag="run", ctl_dir=ctl, preexec=preexec,
+                     env_extra=env_extra)
         check_sim_health(r, f"fs scenario {index} {sc}")
+        if sc.get("sysfault") is not None:
+            res["sys_counts"], res["sys_fired"] = read_syslog(syslog)
+            try:
+                os.unlink(syslog)
+            except FileNotFoundError:
+                pass
         for p in procs:
             p.kill()
             p.wait()
@@ -286,7 +334,8 @@ def run_scenario(sc, seed, index, wl, keep=False):
                     viol("C17", "status0-wrong-output", _c17_sig(sc, res, "wrong-output"),
                          f"exit status 0 but output differs from the fault-free output "
                          f"(size {a[2]}, fault {sc['fault']}, fired {res['fault_fired']})")
-                elif not (a[1] & 0o100):
+                elif not (a[1] & 0o100) and not any(
+                        k in (sc.get("sysfault") or "") for k in ("fchmod#", "statx#")):
                     viol("C17", "status0-not-executable", _c17_sig(sc, res, "not-executable"),
                          "exit status 0 but output is not executable")
         if r.status == 0 and sc["kind"] != "ok":
@@ -297,7 +346,7 @@ def run_scenario(sc, seed, index, wl, keep=False):
             b, a = before.get(out), after.get(out)
             if a is not None and a != b:
                 how = "created" if b is None else "modified"
-                viol("C18", "output-left-behind", _c18_sig(sc, how),
+                viol("C18", "output-left-behind", _c18_sig(sc, how, res),
                      f"exit status {r.status} but output path was {how} by this link: before {b} "
                      f"after {a}; err: {res['err'][-160:]}")
             if a is None and b is not None:
@@ -318,6 +367,12 @@ def run_scenario(sc, seed, index, wl, keep=False):
                 what = "modified"
             if crash_fault:
                 continue  # a killed process cannot clean up; C19 speaks of running wild normally
+            if what == "created" and "unlink#" in (sc.get("sysfault") or "") and \
+                    _c19_sig(sc, rel, what) == "fs/created/<tmp-old-output>":
+                # The injected failure *is* "the old output cannot be deleted": nobody could
+                # remove it, so its hidden temporary name staying behind is not wild's doing.
+                res["info"]["tmp_left_because_unlink_failed"] = True
+                continue
             viol("C19", f"undeclared-{what}", _c19_sig(sc, rel, what),
                  f"{rel} was {what} (declared outputs: {sorted(declared)}); before {b} after {a}")
         return res
@@ -335,6 +390,9 @@ def run_scenario(sc, seed, index, wl, keep=False):
 
 
 def _fault_class(sc):
+    if sc.get("sysfault"):
+        # e.g. "open#3=EMFILE;write#1=short:100" -> "sys-open+write"
+        return "sys-" + "+".join(sorted(set(r.split("#")[0] for r in sc["sysfault"].split(";"))))
     if not sc["fault"]:
         return "nofault"
     kind, trig = sc["fault"].split("@")[:2]
@@ -344,12 +402,16 @@ def _fault_class(sc):
 
 def _c17_sig(sc, res, what):
     kind = sc["fault"].split("@")[0] if sc["fault"] else ("fsize-limit" if sc.get("fsize") else "nofault")
+    if sc.get("sysfault"):
+        kind = _fault_class(sc)
     return f"fs/status0-{what}/{'fork' if sc['fork'] else 'nofork'}/{kind}"
 
 
-def _c18_sig(sc, how):
+def _c18_sig(sc, how, res=None):
     if sc.get("fsize") and not sc["fault"] and sc["kind"] == "ok":
         return f"fs/output-{how}/ok/write-error-fsize-limit"
+    if sc.get("sysfault"):
+        return f"fs/output-{how}/{sc['kind']}/syscall-failure"
     return f"fs/output-{how}/{sc['kind']}/{_fault_class(sc) if sc['fault'] else 'genuine'}"
 
 
@@ -437,17 +499,72 @@ def run_job(job):
                       threads=rng.choice([1, 2, 2, 4]), fork=rng.random() < 0.5,
                       depfile=rng.random() < 0.3, layout=rng.random() < 0.2)
             scenarios.append(sc)
+    # System-call failures: per configuration a profile run counts the calls on the link's files,
+    # then "the n-th call of kind K fails with errno E" is enumerated (all n when few, sampled
+    # otherwise). Only on links that succeed without faults.
+    if base["kind"] == "ok" and not job.get("scenario"):
+        ncfg = {"C17": 2, "C18": 1, "C19": 1}[prop] * (1 if tier == "quick" else 3)
+        for _ in range(ncfg):
+            scenarios.append(dict(base, fault=None, fsize=None, sysfault="", _expand=True,
+                                  strategy=rng.choice(STRATEGIES), pseed=rng.getrandbits(48),
+                                  prior=rng.choice(["absent", "good", "unrelated", "good"]),
+                                  mode=rng.choice([None, "--update-in-place", "--no-update-in-place"]),
+                                  mmap=rng.choice([None, "--no-mmap-output-file"]),
+                                  threads=rng.choice([1, 2, 4]), fork=rng.random() < 0.5,
+                                  depfile=rng.random() < 0.4, layout=rng.random() < 0.2,
+                                  siblings=False if prop == "C17" else base["siblings"]))
     wl = Workload(seed if not job.get("wl_seed") else job["wl_seed"], index, base["kind"],
                   base["out"])
     try:
-        for sc in scenarios:
+        queue = list(scenarios)
+        while queue:
+            sc = queue.pop(0)
+            expand = sc.pop("_expand", False)
             r = run_scenario(sc, seed, index, wl)
+            if expand:
+                if r.get("status") != 0 or r["violations"]:
+                    raise HarnessError(f"fs sysfault profile run failed: {sc} -> {r.get('status')} "
+                                       f"{r.get('err')} {r['violations'][:1]}")
+                counts = r.get("sys_counts", {})
+                if not counts.get("open"):
+                    raise HarnessError(f"fs sysfault profile saw no open() calls: {counts}")
+                per_kind = 6 if tier == "quick" else 24
+                for kind in sorted(SYS_ERRNOS):
+                    n_calls = counts.get(kind, 0)
+                    ns = list(range(1, n_calls + 1))
+                    if len(ns) > per_kind:
+                        ns = sorted(rng.sample(ns, per_kind))
+                    for n in ns:
+                        errs = SYS_ERRNOS[kind]
+                        for e in (errs if tier != "quick" and n_calls <= 4 else
+                                  rng.sample(errs, min(len(errs), 2))):
+                            rule = f"{kind}#{n}={e}"
+                            # A failing writable mmap makes wild fall back to write(); sometimes let
+                            # that path meet a write fault too.
+                            if kind == "mmap" and rng.random() < 0.5:
+                                rule += f";write#{rng.randint(1, 3)}={rng.choice(SYS_ERRNOS['write'])}"
+                            queue.append(dict(sc, sysfault=rule))
+                c["sysfault_profiles"] = c.get("sysfault_profiles", 0) + 1
+                for k, v in counts.items():
+                    c[f"syscalls_profiled_{k}"] = c.get(f"syscalls_profiled_{k}", 0) + v
             res["runs"] += 1
             res["steps"] += r.get("steps", 0)
             res["switches"] += r.get("switches", 0)
             if r.get("switches", 0) > 0:
                 res["distinct"].append(f"{index}:{r.get('trace_hash')}:{sc.get('fault')}")
             fk = sc["fault"].split("@")[0] if sc["fault"] else ("fsize" if sc.get("fsize") else "none")
+            if sc.get("sysfault"):
+                fk = "sys_" + sc["sysfault"].split("#")[0]
+                if not r.get("sys_fired"):
+                    # The same plan made the same calls in the profile run: a rule that does not
+                    # fire means the run is not a function of its plan.
+                    if r.get("status") == 0:
+                        raise HarnessError(f"fs sysfault rule did not fire: {sc}")
+                else:
+                    r["fault_fired"] = r["sys_fired"]
+                    for fl in r["sys_fired"]:
+                        e = sc["sysfault"].split("=")[-1].split(":")[0]
+                        c[f"fault_fired_errno_{e}"] = c.get(f"fault_fired_errno_{e}", 0) + 1
             c[f"fault_configured_{fk}"] = c.get(f"fault_configured_{fk}", 0) + 1
             if r.get("fault_fired"):
                 c[f"fault_fired_{fk}"] = c.get(f"fault_fired_{fk}", 0) + 1
